@@ -1,5 +1,6 @@
 import Yomm2.SpecExec
 import Yomm2.Model.World
+import Yomm2.Proofs.Bridge
 /-!
 # C01 — a call runs the definition more specific than every other applicable one
 -/
@@ -17,5 +18,23 @@ theorem spec_functional {proj reg} {defs : List DefRec} {args : List Nat} {o o' 
 theorem oracle_decides {proj reg} (hr : Ranked proj reg reg.classes.length) (defs : List DefRec)
     (args : List Nat) : Selects proj reg defs args (selectB proj reg defs args) :=
   selectB_spec hr defs args
+
+/-- **C01, table level (PARTIAL)**: for every registry without inheritance cycles, every presentation of its
+    base lists, every method and every tuple of classes acceptable to it, the dispatch table built by
+    the model of `update` holds — at the offset the call computes from the tuple's group indices — the
+    definition more specific than every other applicable one, or the error the specification prescribes.
+    What remains for the end-to-end statement: that `install` + the v-table walk reach this offset
+    (slot allocation, proved for lattices in C04; flattening; v-table pointer lookup). -/
+theorem C01_table_correct (c : Bridge.Ctx) (m : MethodC) (mr : MethodRec) (hm : Bridge.MethodMatches c m mr)
+    (cs ks gis : List Nat) (hk : Forall₂ (fun i k => c.key i = some k) cs ks)
+    (hloc : Cells.LocatedAll c.g m 0 m.vp cs gis) :
+    ∃ cell conc,
+      (dispatchMethod c.g m).table[TableProofs.offset (dispatchMethod c.g m).groups.reverse gis.reverse]? = some (cell, conc) ∧
+      Selects c.proj c.reg mr.defs ks (Bridge.outcomeOf mr.defs cell) :=
+  Bridge.dispatch_table_correct c m mr hm cs ks gis hk hloc
+
+/-- every acceptable class has a group, so the theorem above covers every legal call -/
+theorem every_acceptable_class_is_located (g : Graph) (m : MethodC) (dim v cl : Nat) (h : cl ∈ g.cov.get v) :
+    ∃ gi, Cells.Located g m dim v cl gi := Cells.located_exists g m dim v cl h
 
 end Yomm2.Props.C01
